@@ -3,11 +3,15 @@
    bytes only, so a call cannot depend on or influence another; and the one place where Go's
    randomised map iteration order enters (the order in which the rules of several matching element
    patterns are merged) is irrelevant, because rule lists are consulted by "some rule accepts".
+   C13_same_rules_same_bytes (Proofs/PolicyEquiv.v): two policy VALUES whose tables hold the same
+   rules -- keys in any order, rule lists in any order and multiplicity, pattern entries in any
+   order (everything Go's map iteration order or the order of appends could change) -- sanitize
+   every input to the same bytes, for every interpretation of matchers and oracles.
    Data-race freedom and "concurrent = sequential" are facts about the Go runtime; they are
    validated (not proved) by the race-detector stress run of the C13 check. *)
 From Coq Require Import List NArith Bool Permutation.
 Import ListNotations.
-From BM Require Import Bytes Tokenizer Policy Attrs Loop MapProofs MiscProofs.
+From BM Require Import Bytes Tokenizer Policy Attrs Loop MapProofs MiscProofs PolicyEquiv.
 
 Section C13.
   Variables M U R : Type.
@@ -22,6 +26,11 @@ Section C13.
   Theorem C13_no_dependence_on_earlier_calls : forall inputs,
     map (sanitize_bytes I p) inputs = map (fun s => sanitize_bytes I p s) inputs.
   Proof. reflexivity. Qed.
+
+  (* results do not depend on the order in which the tables are stored or iterated *)
+  Theorem C13_same_rules_same_bytes : forall q, peq p q -> forall s, sanitize_bytes I p s = sanitize_bytes I q s.
+  Proof. intros q E s. apply (peq_sanitize I p q E s). Qed.
 End C13.
 
 Print Assumptions C13_rule_order_irrelevant_partial.
+Print Assumptions C13_same_rules_same_bytes.
